@@ -908,18 +908,23 @@ class SV:
     # comparisons
     def __lt__(s, o):
         if _isnd(o): return NotImplemented
+        if _isinf(o): return o > 0 and o == o
         return liftb(s, o, lambda x, y: x < y)
     def __le__(s, o):
         if _isnd(o): return NotImplemented
+        if _isinf(o): return o > 0 and o == o
         return liftb(s, o, lambda x, y: x <= y)
     def __gt__(s, o):
         if _isnd(o): return NotImplemented
+        if _isinf(o): return o < 0 and o == o
         return liftb(s, o, lambda x, y: x > y)
     def __ge__(s, o):
         if _isnd(o): return NotImplemented
+        if _isinf(o): return o < 0 and o == o
         return liftb(s, o, lambda x, y: x >= y)
     def __eq__(s, o):
         if _isnd(o): return NotImplemented
+        if _isinf(o): return False
         if isinstance(o, SB): o = SV(z3.If(o.t, z3.IntVal(1), z3.IntVal(0)))
         try: return liftb(s, o, lambda x, y: x == y)
         except TypeError: return False
@@ -973,6 +978,11 @@ def _sqrt_term(c, st, nonneg_known):
     lo, hi = interval(st, c.ranges)
     _set_range(c, r, _fsqrt(lo, False) if lo is not None and lo > 0 else Fraction(0), _fsqrt(hi, True) if hi is not None else None)
     return SV(r)
+
+
+def _isinf(o):
+    """non-finite float operand of a comparison with a (finite) symbolic value"""
+    return isinstance(o, (float, _np.floating)) and (o != o or o in (float('inf'), float('-inf')))
 
 
 def _iszero(o):
@@ -1844,8 +1854,13 @@ def explore(fn, max_paths=2000, timeout_ms=10000, linearize=True, maxcases=8, al
             import traceback
             tb = traceback.extract_tb(e.__traceback__)
             where_ = next((f'{f.filename}:{f.lineno}' for f in reversed(tb) if '/repo/' in f.filename), '')
-            out = None; status = f'exc:{type(e).__name__}:{str(e)[:200]} @{where_}'
-            pr.exc = e
+            inner = tb[-1].filename if tb else ''
+            if _in_repo(inner):
+                out = None; status = f'exc:{type(e).__name__}:{str(e)[:200]} @{where_}'
+                pr.exc = e
+            else:       # raised by harness / engine code, not by the code under test
+                out = None; status = f'harness-exc:{type(e).__name__}:{str(e)[:200]} @{os.path.basename(inner)}:{tb[-1].lineno if tb else 0}'
+                stats.aborted += 1
         if c.aborted and not status.startswith('abort'):
             status = f'abort:{c.aborted} (swallowed)'; out = None; stats.aborted += 1
         if status.startswith('exc:'):
@@ -1861,8 +1876,12 @@ def explore(fn, max_paths=2000, timeout_ms=10000, linearize=True, maxcases=8, al
                     if r == z3.sat and c.model is not None:
                         m = _model_inputs(c, c.model)
                     pr.obligations.append((name, str(r), m))
+                elif p:
+                    pr.obligations.append((name, 'unsat', None))
                 else:
-                    pr.obligations.append((name, 'unsat' if p else 'sat-concrete', None))
+                    # concretely false on this path: any model of the path condition is a counterexample
+                    r = c.check(want_model=True, noslice=True)
+                    pr.obligations.append((name, 'sat-concrete', _model_inputs(c, c.model) if r == z3.sat else None))
             if nwit < witness_paths:
                 r = c.check(want_model=True, noslice=True)
                 if r == z3.sat:
@@ -1877,6 +1896,10 @@ def explore(fn, max_paths=2000, timeout_ms=10000, linearize=True, maxcases=8, al
     return results, stats, len(work)
 
 
+def _in_repo(filename):
+    return '/repo/' in filename or filename.startswith(os.environ.get('VERIF_REPO', '/repo')) or '<translated>' in filename
+
+
 def run_concrete(fn, values, allowed_exc=()):
     """replay: run the same harness on concrete float inputs against the real code"""
     c = Ctx(); c.concrete = dict(values); Ctx.cur = c
@@ -1889,7 +1912,10 @@ def run_concrete(fn, values, allowed_exc=()):
     except allowed_exc as e:
         res = []; status = f'refused:{type(e).__name__}'
     except Exception as e:
-        res = []; status = f'exc:{type(e).__name__}:{str(e)[:200]}'
+        import traceback
+        tb = traceback.extract_tb(e.__traceback__)
+        kind = 'exc' if (tb and _in_repo(tb[-1].filename)) else 'harness-exc'
+        res = []; status = f'{kind}:{type(e).__name__}:{str(e)[:200]}'
     finally:
         Ctx.cur = None
     return status, res
